@@ -146,6 +146,22 @@ def run(ctx):
         chosen = [mergelib.Args('inline')] + rng.sample(combos, 1 if ctx.tier == 'quick' else 25)
         for a in chosen:
             check_merge(ctx, b, l, r, a, mergelib.RENDERERS[t % 3], kinds)
+    # three different format minors x whole-notebook use-* strategies (the minor is conflicted, a side is picked)
+    for t in range(12 if ctx.tier == 'quick' else 150):
+        b, l, r, kinds = gen_nb.triple_scenario(rng, minor=rng.choice([2, 3, 4]), first='minor')
+        minors = rng.sample(range(0, 6), 3)
+        used = gen_nb.used_ids(b) | gen_nb.used_ids(l) | gen_nb.used_ids(r)
+        for nb, m in zip((b, l, r), minors):
+            nb['nbformat_minor'] = m
+            for c in nb['cells']:
+                if m >= 5:
+                    c.setdefault('id', gen_nb.new_id(rng, used))
+                else:
+                    c.pop('id', None)
+        if not all(gen_nb.is_valid(nb) for nb in (b, l, r)):
+            continue
+        ctx.count('three-minors x use-*')
+        check_merge(ctx, b, l, r, mergelib.Args(rng.choice(['use-base', 'use-local', 'use-remote'])), mergelib.RENDERERS[t % 3], kinds + ['three-minors'])
     cli_leg(ctx, 4 if ctx.tier == 'quick' else 60)
 
 
